@@ -18,7 +18,7 @@ Payload ==
      dests |-> [i \in 1..Len(dests) |-> [dt |-> dests[i].dt, req |-> Req(i), pay |-> Wanted(i)]],
      opts |-> [opts EXCEPT !.tune = <<>>], tune |-> [t |-> opts.tune[1], d |-> opts.tune[2]],
      fee |-> [cls |-> opts.fee, amt |-> Fee],
-     seqc |-> SeqOf(opts.seqc), lt |-> LockOf(opts.lt), ver |-> VerOf(opts.ver),
+     msg |-> MsgOf(opts.msg), seqc |-> SeqOf(opts.seqc), lt |-> LockOf(opts.lt), ver |-> VerOf(opts.ver),
      subapplies |-> SubApplies,
      need |-> IF SubUnderflow THEN Zero ELSE Need, funds |-> TotalOwned(unsp),
      owned |-> [j \in 1..Len(unsp) |-> Owned(unsp[j])],
